@@ -690,33 +690,30 @@ class CSemantics:
 
     def on_number(self, value, location):
         """React on integer numeric literal"""
+        # Octal, hexadecimal and binary constants may get an unsigned type:
+        decimal = not value.startswith("0")
+
         # Get value from string:
         value, type_specifiers = utils.cnum(value)
 
         assert isinstance(value, int)
-        if type_specifiers:
-            typ = self.get_type(type_specifiers)
-        else:
-            # Use larger type to fit the value if required:
-            # Try unsigned long,
-            ulonglong_type = self.get_type(["unsigned", "long", "long"])
-            longlong_type = self.get_type(["long", "long"])
-            ulong_type = self.get_type(["unsigned", "long"])
-            long_type = self.get_type(["long"])
-            uint_type = self.get_type(["unsigned", "int"])
+        unsigned = "unsigned" in type_specifiers
+        min_longs = type_specifiers.count("long")
 
-            if value <= self.context.limit_max(self.int_type):
-                typ = self.int_type
-            elif value <= self.context.limit_max(uint_type):
-                typ = uint_type
-            elif value <= self.context.limit_max(long_type):
-                typ = long_type
-            elif value <= self.context.limit_max(ulong_type):
-                typ = ulong_type
-            elif value <= self.context.limit_max(longlong_type):
-                typ = longlong_type
-            else:
-                typ = ulonglong_type
+        # The type is the first type of this list in which the value fits.
+        # The suffix gives the smallest type to try.
+        candidate_types = []
+        for names in (["int"], ["long"], ["long", "long"])[min_longs:]:
+            if not unsigned:
+                candidate_types.append(self.get_type(names))
+            # A decimal constant which does not fit in an int becomes
+            # a long, and unsigned only when there is no larger type.
+            if unsigned or not decimal or names != ["int"]:
+                candidate_types.append(self.get_type(["unsigned"] + names))
+
+        for typ in candidate_types:
+            if value <= self.context.limit_max(typ):
+                break
 
         assert typ.is_integer
         # Check limits of integer
@@ -739,17 +736,19 @@ class CSemantics:
         """Process a character literal"""
         # Get value from string:
         char_value, kind = utils.charval(value)
-        typ = self.get_type(kind)
-        return expressions.CharLiteral(char_value, typ, location)
+        # The value is that of a char, the type of the constant is int:
+        char_value = self.context.to_integer_type(
+            self.get_type(kind), char_value
+        )
+        return expressions.CharLiteral(char_value, self.int_type, location)
 
     def on_ternop(self, lhs, op, mid, rhs, location):
         """Handle ternary operator 'a ? b : c'"""
-        lhs = self.pointer(lhs)
-        lhs = self.coerce(lhs, self.int_type)
+        lhs = self.check_condition(lhs)
         # TODO: For now, we use the common type of b and c as the result
         # But is this correct?
-        mid = self.pointer(mid)
-        rhs = self.pointer(rhs)
+        mid = self.promote(self.pointer(mid))
+        rhs = self.promote(self.pointer(rhs))
         common_type = self.get_common_type(mid.typ, rhs.typ, location)
         mid = self.coerce(mid, common_type)
         rhs = self.coerce(rhs, common_type)
@@ -861,13 +860,27 @@ class CSemantics:
             if not (rhs.typ.is_scalar or rhs.typ.is_pointer):
                 self.error("Expected scalar or pointer", rhs.location)
 
+            lhs = self.promote(lhs)
+            rhs = self.promote(rhs)
+
             common_typ = self.get_common_type(lhs.typ, rhs.typ, location)
             lhs = self.coerce(lhs, common_typ)
             rhs = self.coerce(rhs, common_typ)
 
             # Booleans are integer type:
             result_typ = self.int_type
-        elif op in ["<<", ">>", "|", "&", "^"]:  # Bit shifting operators
+        elif op in ["<<", ">>"]:  # Bit shifting operators
+            self.ensure_integer(lhs)
+            self.ensure_integer(rhs)
+
+            # The result has the type of the promoted left operand:
+            lhs = self.promote(lhs)
+            rhs = self.promote(rhs)
+
+            result_typ = self.get_common_type(lhs.typ, lhs.typ, location)
+            lhs = self.coerce(lhs, result_typ)
+            rhs = self.coerce(rhs, result_typ)
+        elif op in ["|", "&", "^"]:  # Bitwise operators
             self.ensure_integer(lhs)
             self.ensure_integer(rhs)
 
@@ -909,14 +922,15 @@ class CSemantics:
 
             expr = expressions.UnaryOperator(op, a, a.typ, False, location)
         elif op == "-":
-            a = self.pointer(a)
+            a = self.promote(self.pointer(a))
             expr = expressions.UnaryOperator(op, a, a.typ, False, location)
         elif op == "~":
             a = self.pointer(a)
             self.ensure_integer(a)
+            a = self.promote(a)
             expr = expressions.UnaryOperator(op, a, a.typ, False, location)
         elif op == "+":
-            expr = self.pointer(a)
+            expr = self.promote(self.pointer(a))
         elif op == "*":
             a = self.pointer(a)
             if not a.typ.is_pointer:
@@ -1235,7 +1249,13 @@ class CSemantics:
         to int type before performing the operation.
         """
         if expr.typ.is_promotable:
-            expr = self.coerce(expr, self.int_type)
+            if expr.typ.is_signed or self.context.sizeof(
+                expr.typ
+            ) < self.context.sizeof(self.int_type):
+                expr = self.coerce(expr, self.int_type)
+            else:
+                # An int cannot hold all values of this unsigned type:
+                expr = self.coerce(expr, self.get_type(["unsigned", "int"]))
         return expr
 
     def equal_types(self, typ1, typ2):
@@ -1284,7 +1304,32 @@ class CSemantics:
         The common type is a type they can both be cast to.
         """
 
-        return max([typ1, typ2], key=lambda t: self._get_rank(t, location))
+        # Enumeration constants and values are integers:
+        if isinstance(typ1, types.EnumType):
+            typ1 = self.int_type
+        if isinstance(typ2, types.EnumType):
+            typ2 = self.int_type
+
+        if self._get_rank(typ1, location) >= self._get_rank(typ2, location):
+            common_type, other_type = typ1, typ2
+        else:
+            common_type, other_type = typ2, typ1
+
+        # When a signed type cannot represent all values of the unsigned
+        # type, take the unsigned variant of the signed type:
+        if (
+            common_type.is_integer
+            and other_type.is_integer
+            and common_type.is_signed
+            and not other_type.is_signed
+            and self.context.sizeof(common_type)
+            <= self.context.sizeof(other_type)
+        ):
+            common_type = self.get_type(
+                ["unsigned"] + common_type.type_id.split()
+            )
+
+        return common_type
 
     basic_ranks = {
         types.BasicType.LONGDOUBLE: 110,
